@@ -7,6 +7,7 @@ import (
 
 	"pgregory.net/rapid"
 	"verifharness/sq"
+	"verifharness/val"
 )
 
 // Safe identifiers: not SQL keywords in the library's dialect (checked by TestNamesParse), distinct
@@ -506,4 +507,37 @@ func applyGoTypes(rows []any, types map[string]string) []any {
 		out[i] = m
 	}
 	return out
+}
+
+// typedDoc returns a fresh copy of doc in which, for every table named in types, the listed columns
+// hold native Go values of the given numeric type.
+func typedDoc(doc map[string]any, types map[string]map[string]string) map[string]any {
+	d := val.CopyMap(doc)
+	for table, cols := range types {
+		if rows, ok := d[table].([]any); ok && len(cols) > 0 {
+			d[table] = applyGoTypes(rows, cols)
+		}
+	}
+	return d
+}
+
+// genGoTypesForPool draws a Go numeric type able to hold every value of pool ("" = keep float64).
+func genGoTypesForPool(t *rapid.T, pool []any, label string) string {
+	if rapid.IntRange(0, 2).Draw(t, label+".typed") != 0 {
+		return ""
+	}
+	cands := append([]string{"float32"}, goIntTypes...)
+	for _, typ := range rapid.Permutation(cands).Draw(t, label+".type") {
+		ok := true
+		for _, v := range pool {
+			if f, isNum := v.(float64); !isNum || !fitsGoType(f, typ) {
+				ok = false
+				break
+			}
+		}
+		if ok {
+			return typ
+		}
+	}
+	return ""
 }
